@@ -284,6 +284,7 @@ theorem View_self (s : State) : View s s.pc s.stack s.eval s.unnamed (s.regs .re
 structure Handler (h : State → State) : Prop where
   view : ∀ s pc stk ev un rv, h (View s pc stk ev un rv) = View (h s) pc stk ev un rv
   nohalt : ∀ s, s.status ≠ .halted → (h s).status ≠ .halted
+  umode : ∀ s, (∃ m, s.regs .unitMode = .mode m) → ∃ m, (h s).regs .unitMode = .mode m
 
 theorem Handler.frame {h : State → State} (hh : Handler h) (s : State) :
     (h s).pc = s.pc ∧ (h s).stack = s.stack ∧ (h s).eval = s.eval ∧ (h s).unnamed = s.unnamed ∧
@@ -292,15 +293,109 @@ theorem Handler.frame {h : State → State} (hh : Handler h) (s : State) :
   rw [View_self] at this
   refine ⟨?_, ?_, ?_, ?_, ?_⟩ <;> (rw [this]; simp [View])
 
-theorem handler_doColor : Handler State.doColor := ⟨View_doColor, nh_doColor⟩
-theorem handler_doPower : Handler State.doPower := ⟨View_doPower, nh_doPower⟩
-theorem handler_doGetColor : Handler State.doGetColor := ⟨View_doGetColor, nh_doGetColor⟩
+/-! ### the handlers leave a unit mode in the unit-mode register -/
+
+theorem sendColor_regs (n raw dur) : (s.sendColor n raw dur).regs = s.regs := by
+  simp only [State.sendColor]; split <;> rfl
+theorem sendPower_regs (n p dur) : (s.sendPower n p dur).regs = s.regs := by
+  simp only [State.sendPower]; split <;> rfl
+
+theorem foldColor_regs (names : List String) (raw dur) :
+    (names.foldl (fun st n => if st.status == .running then st.sendColor n raw dur else st) s).regs
+      = s.regs := by
+  induction names generalizing s with
+  | nil => rfl
+  | cons n rest ih =>
+    simp only [List.foldl_cons]
+    split
+    · rw [ih, sendColor_regs]
+    · rw [ih]
+
+theorem foldPower_regs (names : List String) (p dur) :
+    (names.foldl (fun st n => if st.status == .running then st.sendPower n p dur else st) s).regs
+      = s.regs := by
+  induction names generalizing s with
+  | nil => rfl
+  | cons n rest ih =>
+    simp only [List.foldl_cons]
+    split
+    · rw [ih, sendPower_regs]
+    · rw [ih]
+
+theorem colorMultiple_regs (names) : (s.colorMultiple names).regs = s.regs := by
+  simp only [State.colorMultiple]
+  split
+  · exact foldColor_regs ..
+  · rfl
+
+theorem powerMultiple_regs (names) : (s.powerMultiple names).regs = s.regs := by
+  simp only [State.powerMultiple]
+  split
+  · exact foldPower_regs ..
+  · rfl
+
+theorem doColor_regs : s.doColor.regs = s.regs := by
+  unfold State.doColor
+  repeat' split
+  all_goals try exact colorMultiple_regs _ _
+  all_goals try simp only [State.emit, State.fault]
+  all_goals repeat' split
+  all_goals rfl
+
+theorem doPower_regs : s.doPower.regs = s.regs := by
+  unfold State.doPower
+  repeat' split
+  all_goals try exact powerMultiple_regs _ _
+  all_goals try simp only [State.emit, State.fault]
+  all_goals repeat' split
+  all_goals rfl
+
+theorem storeColor_umode (c) : (s.storeColor c).regs .unitMode = s.regs .unitMode := by
+  unfold State.storeColor
+  repeat' split
+  all_goals simp [State.setReg]
+
+theorem doGetColor_umode : s.doGetColor.regs .unitMode = s.regs .unitMode := by
+  unfold State.doGetColor
+  repeat' split
+  all_goals try simp only []
+  all_goals repeat' split
+  all_goals first | rfl | (rw [storeColor_umode]; rfl)
+
+theorem switchMode_umode (m) (h : ∃ m', s.regs .unitMode = .mode m') :
+    ∃ m', (s.switchMode m).regs .unitMode = .mode m' := by
+  unfold State.switchMode
+  simp only []
+  repeat' split
+  all_goals first
+    | exact h
+    | exact ⟨m, by simp [State.setReg, State.fault, storeColor_umode]⟩
+
+theorem wait_regs (img : Image) : (execInstr img s .wait).regs = s.regs := by
+  simp only [execInstr]
+  repeat' split
+  all_goals rfl
+
+theorem matrixI_regs (img : Image) : (execInstr img s .matrix).regs = s.regs := by
+  simp only [execInstr]
+  repeat' split
+  all_goals rfl
+
+theorem handler_doColor : Handler State.doColor :=
+  ⟨View_doColor, nh_doColor, fun s h => by rw [doColor_regs]; exact h⟩
+theorem handler_doPower : Handler State.doPower :=
+  ⟨View_doPower, nh_doPower, fun s h => by rw [doPower_regs]; exact h⟩
+theorem handler_doGetColor : Handler State.doGetColor :=
+  ⟨View_doGetColor, nh_doGetColor, fun s h => by rw [doGetColor_umode]; exact h⟩
 theorem handler_switchMode (m : UnitMode) : Handler (fun s => s.switchMode m) :=
-  ⟨fun s pc stk ev un rv => View_switchMode s pc stk ev un rv m, fun s => nh_switchMode s m⟩
+  ⟨fun s pc stk ev un rv => View_switchMode s pc stk ev un rv m, fun s => nh_switchMode s m,
+    fun s h => switchMode_umode s m h⟩
 theorem handler_wait (img : Image) : Handler (fun s => execInstr img s .wait) :=
-  ⟨fun s pc stk ev un rv => View_wait s pc stk ev un rv img img, fun s => nh_wait s img⟩
+  ⟨fun s pc stk ev un rv => View_wait s pc stk ev un rv img img, fun s => nh_wait s img,
+    fun s h => by rw [wait_regs]; exact h⟩
 theorem handler_matrix (img : Image) : Handler (fun s => execInstr img s .matrix) :=
-  ⟨fun s pc stk ev un rv => View_matrixI s pc stk ev un rv img img, fun s => nh_matrixI s img⟩
+  ⟨fun s pc stk ev un rv => View_matrixI s pc stk ev un rv img img, fun s => nh_matrixI s img,
+    fun s h => by rw [matrixI_regs]; exact h⟩
 
 /-! ### the simulation relation -/
 
@@ -329,6 +424,8 @@ structure SimU (K : Ctx) (stk : List Frame) (un : List Val) (σ : S) (s : State)
   unnamed : s.unnamed = un
   locals : K.ret.isSome = σ.locals.isSome ∧ σ.routines = K.routines
   status : σ.vm.status = .running
+  /-- the unit-mode register holds a unit mode (the generated code tests it in `cycle` loops) -/
+  umode : ∃ m, σ.vm.regs .unitMode = .mode m
   globals : σ.vm.globals = s.globals
   constants : σ.vm.constants = s.constants
   lights : σ.vm.lights = s.lights
@@ -361,13 +458,16 @@ theorem SimU.view (h : SimU K stk un σ s) :
 theorem SimU.of_view {σ' : S} {t : State} {pc stk' ev un' rv}
     (hr : t.status = .running) (hs : t.stack = stk ++ baseOf K σ'.locals) (hl : LoopsOnly stk)
     (he : t.eval = []) (hu : t.unnamed = un) (hloc : K.ret.isSome = σ'.locals.isSome ∧ σ'.routines = K.routines)
+    (hm : ∃ m, t.regs .unitMode = .mode m)
     (hv : σ'.vm = View t pc stk' ev un' rv) :
     SimU K stk un σ' t := by
-  refine ⟨hr, hs, hl, he, hu, hloc, ?_, ?_, ?_, ?_, ?_, ?_, ?_, ?_, ?_⟩
+  refine ⟨hr, hs, hl, he, hu, hloc, ?_, ?_, ?_, ?_, ?_, ?_, ?_, ?_, ?_, ?_⟩
   all_goals rw [hv]
   all_goals first | exact hr | rfl | skip
-  intro r hne
-  simp [View, hne]
+  · obtain ⟨m, hm⟩ := hm
+    exact ⟨m, by simp [View, hm]⟩
+  · intro r hne
+    simp [View, hne]
 
 /-- the current activation's dictionary is the source level's `locals` -/
 theorem SimU.activation (h : SimU K stk un σ s) : σ.locals = activation s.stack := by
@@ -394,7 +494,7 @@ theorem SimU.lookup (h : SimU K stk un σ s) (n : String) : σ.lookup n = s.getV
 
 /-- moving the program counter does not disturb the relation -/
 theorem SimU.setPc (h : SimU K stk un σ s) (q : Int) : SimU K stk un σ { s with pc := q } :=
-  ⟨h.running, h.stack, h.loops, h.eval, h.unnamed, h.locals, h.status, h.globals, h.constants,
+  ⟨h.running, h.stack, h.loops, h.eval, h.unnamed, h.locals, h.status, h.umode, h.globals, h.constants,
     h.lights, h.trace, h.defaultColor, h.matrix, h.draws, h.regs⟩
 
 /-- a handler run on both sides keeps the relation -/
@@ -434,6 +534,9 @@ theorem SimU.device {hd : State → State} (hh : Handler hd) (h : SimU K stk un 
     · show (hd s).unnamed = un
       rw [hunn, h.unnamed]
     · exact h.locals
+    · apply hh.umode
+      obtain ⟨m, hm⟩ := h.umode
+      exact ⟨m, by rw [← h.regs _ (by decide), hm]⟩
     · show hd σ.vm = _
       rw [hcomm]; rfl
 
@@ -752,9 +855,10 @@ theorem run_genRv (v : Rv) (hv : RvOK v) (d : Dst) (hd : d ≠ .reg .unitMode)
 
 /-! ### the relation is kept by the elementary updates -/
 
-theorem SimU.setReg (h : SimU K stk un σ s) (r : Reg) (v : Val) :
+theorem SimU.setReg (h : SimU K stk un σ s) (r : Reg) (v : Val) (hr : r ≠ .unitMode := by decide) :
     SimU K stk un (σ.setReg r v) (s.setReg r v) :=
-  ⟨h.running, h.stack, h.loops, h.eval, h.unnamed, h.locals, h.status, h.globals, h.constants,
+  ⟨h.running, h.stack, h.loops, h.eval, h.unnamed, h.locals, h.status,
+    by simpa [S.setReg, State.setReg, Ne.symm hr] using h.umode, h.globals, h.constants,
     h.lights, h.trace, h.defaultColor, h.matrix, h.draws, fun r' hr' => by
       simp only [S.setReg, State.setReg]
       split
@@ -762,19 +866,19 @@ theorem SimU.setReg (h : SimU K stk un σ s) (r : Reg) (v : Val) :
       · exact h.regs r' hr'⟩
 
 theorem SimU.setResult (h : SimU K stk un σ s) (v : Val) : SimU K stk un σ (s.setReg .result v) :=
-  ⟨h.running, h.stack, h.loops, h.eval, h.unnamed, h.locals, h.status, h.globals, h.constants,
+  ⟨h.running, h.stack, h.loops, h.eval, h.unnamed, h.locals, h.status, h.umode, h.globals, h.constants,
     h.lights, h.trace, h.defaultColor, h.matrix, h.draws, fun r' hr' => by
       simp only [State.setReg, if_neg hr']
       exact h.regs r' hr'⟩
 
 theorem SimU.semSetResult (h : SimU K stk un σ s) (v : Val) : SimU K stk un (σ.setReg .result v) s :=
-  ⟨h.running, h.stack, h.loops, h.eval, h.unnamed, h.locals, h.status, h.globals, h.constants,
+  ⟨h.running, h.stack, h.loops, h.eval, h.unnamed, h.locals, h.status, h.umode, h.globals, h.constants,
     h.lights, h.trace, h.defaultColor, h.matrix, h.draws, fun r' hr' => by
       simp only [S.setReg, State.setReg, if_neg hr']
       exact h.regs r' hr'⟩
 
 theorem SimU.emit (h : SimU K stk un σ s) (e : Event) : SimU K stk un (σ.emit e) (s.emit e) :=
-  ⟨h.running, h.stack, h.loops, h.eval, h.unnamed, h.locals, h.status, h.globals, h.constants,
+  ⟨h.running, h.stack, h.loops, h.eval, h.unnamed, h.locals, h.status, h.umode, h.globals, h.constants,
     h.lights, by simp only [S.emit, State.emit, h.trace], h.defaultColor, h.matrix, h.draws, h.regs⟩
 
 theorem SimU.assign (h : SimU K stk un σ s) (n : String) (v : Val) :
@@ -796,7 +900,7 @@ theorem SimU.assign (h : SimU K stk un σ s) (n : String) (v : Val) :
       simp only [S.assign, hnone]
     rw [this]
     exact ⟨h.running, by simpa [baseOf, hK] using hstack, h.loops, h.eval, h.unnamed,
-      ⟨by rw [hK]; simpa using hloc, hrt⟩, h.status,
+      ⟨by rw [hK]; simpa using hloc, hrt⟩, h.status, h.umode,
       by simp only [h.globals], h.constants, h.lights, h.trace, h.defaultColor, h.matrix, h.draws, h.regs⟩
   | some p =>
     obtain ⟨ret, rest⟩ := p
@@ -812,7 +916,7 @@ theorem SimU.assign (h : SimU K stk un σ s) (n : String) (v : Val) :
           simp only [S.assign, hl, hn, if_true]
         rw [this]
         exact ⟨h.running, by simp only [baseOf, hK], h.loops, h.eval, h.unnamed,
-          ⟨by rw [hK]; rfl, hrt⟩, h.status, h.globals, h.constants,
+          ⟨by rw [hK]; rfl, hrt⟩, h.status, h.umode, h.globals, h.constants,
           h.lights, h.trace, h.defaultColor, h.matrix, h.draws, h.regs⟩
       · have hn : d.has n = false := by simpa using hn
         by_cases hg : s.globals.has n = true
@@ -821,7 +925,7 @@ theorem SimU.assign (h : SimU K stk un σ s) (n : String) (v : Val) :
             simp only [S.assign, hl, hn, h.globals, hg, if_true, Bool.false_eq_true, if_false]
           rw [this]
           exact ⟨h.running, by simp only [hl, baseOf, hK]; exact hstack, h.loops, h.eval, h.unnamed,
-            ⟨by simp only [hl, hK]; rfl, hrt⟩, h.status,
+            ⟨by simp only [hl, hK]; rfl, hrt⟩, h.status, h.umode,
             by simp only [h.globals], h.constants, h.lights, h.trace, h.defaultColor, h.matrix, h.draws,
             h.regs⟩
         · have hg : s.globals.has n = false := by simpa using hg
@@ -833,18 +937,18 @@ theorem SimU.assign (h : SimU K stk un σ s) (n : String) (v : Val) :
             simp only [S.assign, hl, hn, h.globals, hg, Bool.false_eq_true, if_false, hput]
           rw [this]
           exact ⟨h.running, by simp only [baseOf, hK], h.loops, h.eval, h.unnamed,
-            ⟨by rw [hK]; rfl, hrt⟩, h.status, h.globals, h.constants,
+            ⟨by rw [hK]; rfl, hrt⟩, h.status, h.umode, h.globals, h.constants,
             h.lights, h.trace, h.defaultColor, h.matrix, h.draws, h.regs⟩
 
 theorem SimU.constant (h : SimU K stk un σ s) (n : String) (v : Val) :
     SimU K stk un { σ with vm := { σ.vm with constants := σ.vm.constants.put n v } }
       { s with constants := s.constants.put n v } :=
-  ⟨h.running, h.stack, h.loops, h.eval, h.unnamed, h.locals, h.status, h.globals,
+  ⟨h.running, h.stack, h.loops, h.eval, h.unnamed, h.locals, h.status, h.umode, h.globals,
     by simp only [h.constants], h.lights, h.trace, h.defaultColor, h.matrix, h.draws, h.regs⟩
 
 theorem SimU.setUnnamed (h : SimU K stk un σ s) (un' : List Val) :
     SimU K stk un' σ { s with unnamed := un' } :=
-  ⟨h.running, h.stack, h.loops, h.eval, rfl, h.locals, h.status, h.globals, h.constants,
+  ⟨h.running, h.stack, h.loops, h.eval, rfl, h.locals, h.status, h.umode, h.globals, h.constants,
     h.lights, h.trace, h.defaultColor, h.matrix, h.draws, h.regs⟩
 
 /-! ### value positions -/
@@ -856,7 +960,7 @@ theorem exec_setReg (v : Rv) (hv : RvOK v) (r : Reg) (hr : r ≠ .unitMode)
     {f : Nat} {x : Val} {σ' : S} (hev : evalRv f v σ = .ok (x, σ')) :
     σ' = σ ∧ Exec img s (At K (pc + (Gen.genRv v (.to (.reg r))).length) stk un (σ.setReg r x)) := by
   obtain ⟨rfl, hrun⟩ := run_genRv v hv (.reg r) (by simpa using hr) h hpc hc hev h.running
-  exact ⟨rfl, Exec.of_run _ hrun ⟨rfl, (h.setReg r x).setPc _⟩⟩
+  exact ⟨rfl, Exec.of_run _ hrun ⟨rfl, (h.setReg r x hr).setPc _⟩⟩
 
 /-- a value delivered in `result` (condition, printed value, argument): the source-level state
 does not change -/
@@ -891,7 +995,7 @@ theorem exec_moveqReg (v : Val) (r : Reg) (hr : r ≠ .unitMode)
   apply Exec.done
   rw [step_eq _ (s.setReg r v) h.running hpc hi rfl
     (by rw [execInstr_moveq v (.reg r) (by simpa using hr)]; rfl) h.running]
-  refine ⟨?_, (h.setReg r v).setPc _⟩
+  refine ⟨?_, (h.setReg r v hr).setPc _⟩
   show s.pc + 1 = _
   rw [hpc]; omega
 
@@ -1089,7 +1193,7 @@ theorem exec_timePatterns (rest : List TP.Pat) :
     apply Exec.done
     refine ⟨by simpa using hpc, ?_⟩
     have := h.setReg .time (.pat p0)
-    refine ⟨h.running, h.stack, h.loops, h.eval, h.unnamed, h.locals, h.status, h.globals,
+    refine ⟨h.running, h.stack, h.loops, h.eval, h.unnamed, h.locals, h.status, h.umode, h.globals,
       h.constants, h.lights, h.trace, h.defaultColor, h.matrix, h.draws, fun r hr => ?_⟩
     simp only [List.foldl_nil, S.setReg, State.setReg]
     split
@@ -1113,7 +1217,7 @@ theorem exec_timePatterns (rest : List TP.Pat) :
     · rw [ht'.1]; simp only [List.length_cons]; omega
     · have h2 := ht'.2
       simp only [List.foldl_cons]
-      refine ⟨h2.running, h2.stack, h2.loops, h2.eval, h2.unnamed, h2.locals, h2.status, h2.globals,
+      refine ⟨h2.running, h2.stack, h2.loops, h2.eval, h2.unnamed, h2.locals, h2.status, h2.umode, h2.globals,
         h2.constants, h2.lights, h2.trace, h2.defaultColor, h2.matrix, h2.draws, fun r hr => ?_⟩
       rw [← h2.regs r hr]
       simp only [S.setReg, State.setReg]
